@@ -4,6 +4,11 @@
 import Gotree.Lemmas.C04Q
 import Gotree.Lemmas.C04HM
 import Gotree.Lemmas.C04Idx
+import Gotree.Lemmas.C04Fill
+import Gotree.Lemmas.C04Hash
+import Gotree.Lemmas.C04Quart
+import Gotree.Lemmas.C04Transport
+import Gotree.Proofs.C05
 
 namespace Gotree.C04
 open Gotree
@@ -34,6 +39,24 @@ example : exTipRoot.tipNames = ["E", "B", "A", "D", "C"] ∧ exTipRoot.tipNames.
 theorem reinit_correct (H : String → UInt64) (t : T) (hn : t.tipNames.Nodup) (hne : t.tipNames ≠ []) :
     reinit H t = .ok (sortNames t.tipNames, t.splits.map fun s => specIdx H t.tipNames s.below) :=
   reinit_eq H t hn hne
+
+/-- `reinitLit` — what the driver runs: `ReinitIndexes` with the bitsets filled statement by statement
+    as `UpdateBitSet`/`fillRightBitSet` do (a stack of the bitsets of the branches above, `ClearAll` on
+    entry, `Set` of the tip id in every member of the stack at a tip, push/pop around each child) — is
+    `reinit`, for every tree and every `H`.  All theorems about `reinit`/`indexOf` are about it. -/
+theorem reinitLit_eq (H : String → UInt64) (t : T) : reinitLit H t = reinit H t := reinitLit_eq_reinit H t
+
+/-- `reinitLit2` — what the driver runs now: besides the stack-based bitsets, both hash passes statement by
+    statement (`e.hashcoderight += …` over the children from 0; the loop over `prev.Neigh()` in slice order
+    with the parent at `ppos`, skipping `cur`, reading the stored right fields of the children and the left
+    fields of the branch above; the `prev.Tip()` addition) — is `reinit`, for every tree and every `H`:
+    the order of the wrap-around additions is immaterial. -/
+theorem reinitLit2_eq (H : String → UInt64) (t : T) : reinitLit2 H t = reinit H t := reinitLit2_eq_reinit H t
+
+/-- the literal `UpdateBitSet` alone: one bitset per branch, bit `rank x` set iff `x` is below -/
+theorem updateBitSet_correct (rank : String → Nat) (n : Nat) (t : T) :
+    updateBitSet rank n t.kids = t.splits.map fun s => mkBits n (s.below.map rank) :=
+  updateBitSet_eq rank n t.kids
 
 /-- every branch has its record, and it is `specIdx` of the branch's split -/
 theorem indexOf_eq (H : String → UInt64) (t : T) (hn : t.tipNames.Nodup) (i : Nat) (hi : i < t.splits.length) :
@@ -130,6 +153,25 @@ theorem hashCode_split_invariant (H : String → UInt64) (t₁ t₂ : T)
 example : sameSplit exT.tipNames (exT.splits[0]).below (exTipRoot.splits[1]).below = true := by decide
 example : sameSplit exT.tipNames (exT.splits[3]).below (exTipRoot.splits[1]).below = true := by decide
 
+/-- Re-rooting, unrooting and rotating (the models of C05, tied to `Reroot`, `UnRoot`,
+    `RotateInternalNodes` there) keep the hash code of every split: a branch of the edited tree and a
+    branch of the original that define the same split have the same `HashCode`, are `HashEquals` and
+    `SameBipartition` after `ReinitIndexes` on both. -/
+theorem edits_keep_hashes (H : String → UInt64) (t t' : T) (hu : t.tipNames.Nodup)
+    (hop : (∃ p, C05.reroot t p = .ok t' ∧ C05.lensOK t = true) ∨
+           (t' = C05.unroot t ∧ C05.lensOK t = true ∧ C05.supsOK t = true) ∨
+           (∃ draws, t' = C05.rotate t draws ∧ C05.lensOK t = true))
+    (i j : Nat) (hi : i < t.splits.length) (hj : j < t'.splits.length)
+    (hs : sameSplit t.tipNames (t.splits[i]).below (t'.splits[j]).below = true) :
+    ∃ e e', indexOf H t i = some e ∧ indexOf H t' j = some e' ∧
+      e.hashCode = e'.hashCode ∧ e.equals e' = true ∧ e.sameBipartition e' = true := by
+  have hu5 : C05.uniq t = true := by simp [C05.uniq, hu]
+  have hperm : t'.tipNames.Perm t.tipNames := by
+    rcases hop with ⟨p, h, hl⟩ | ⟨rfl, hl, hsup⟩ | ⟨draws, rfl, hl⟩
+    · exact (C05.P.reroot_preserves t t' p hu5 hl h).1
+    · exact (C05.P.unroot_preserves t hu5 hl hsup).1
+    · exact (C05.P.rotate_preserves t draws hl).1
+  exact hashCode_split_invariant H t t' hu (hperm.nodup_iff.mpr hu) hperm.symm i j hi hj hs
 /-- `equals_iff_sameSplit`: `HashEquals` and `SameBipartition` hold exactly for branches that define
     the same split. -/
 theorem equals_iff_sameSplit (H : String → UInt64) (t₁ t₂ : T)
@@ -178,6 +220,36 @@ theorem findEdge_correct (H : String → UInt64) (t₁ t₂ : T)
   exact findEdge_go_spec H _ hu₁ hu₂ hT hb t₂.splits
     fun s hs => ⟨below_sublist t₂ s hs, (below_proper t₂ s hs).1⟩
 
+/-- `CommonEdges` (the glue over `FindEdge`) on two indexed trees on the same uniquely named taxa:
+    never an error; `common` counts the considered branches of the first tree (inner ones, or all with
+    `tipEdges`) whose split is carried by a branch of the same kind in the second, `tree1` the others. -/
+theorem commonEdges_correct (H : String → UInt64) (t₁ t₂ : T)
+    (hu₁ : t₁.tipNames.Nodup) (hu₂ : t₂.tipNames.Nodup) (hT : t₁.tipNames.Perm t₂.tipNames) (hne : t₁.tipNames ≠ [])
+    (r₁ r₂ : List String × List EdgeIdx) (h₁ : reinit H t₁ = .ok r₁) (h₂ : reinit H t₂ = .ok r₂) (tipEdges : Bool) :
+    commonEdges t₁.tipNames t₂.tipNames (r₁.2.zip (t₁.splits.map (·.tip))) (r₂.2.zip (t₂.splits.map (·.tip))) tipEdges =
+      some (specCommon t₁.tipNames tipEdges t₁.splits t₂.splits) := by
+  have hne₂ : t₂.tipNames ≠ [] := fun h => hne (List.length_eq_zero_iff.mp (by rw [hT.length_eq, h]; rfl))
+  rw [reinit_eq H t₁ hu₁ hne] at h₁
+  rw [reinit_eq H t₂ hu₂ hne₂] at h₂
+  cases h₁; cases h₂
+  have hc : compareTipIndexes t₁.tipNames t₂.tipNames = true := by
+    unfold compareTipIndexes
+    have l2 : t₂.tipNames.length ≠ 0 := fun h => hne₂ (List.length_eq_zero_iff.mp h)
+    simp only [Bool.and_eq_true, Bool.not_eq_true', Bool.or_eq_false_iff, beq_eq_false_iff_ne, ne_eq,
+      not_false_eq_true, l2, bne_eq_false_iff_eq, hT.length_eq, and_self, List.all_eq_true, true_and]
+    intro x hx; exact List.contains_iff_mem.mpr (hT.mem_iff.mp hx)
+  unfold commonEdges
+  simp only [hc, Bool.not_true, Bool.false_eq_true, if_false, List.zip_map']
+  have := commonEdgesLoop_spec H t₂ tipEdges hu₁ hu₂ hT t₁.splits
+    (fun s hs => ⟨below_sublist t₁ s hs, (below_proper t₁ s hs).1⟩) 0 0
+  simp only [Int.natCast_zero, Nat.zero_add] at this
+  rw [this]
+  unfold specCommon
+  simp only [Option.some.injEq, Prod.mk.injEq, and_true]
+  have hle := List.length_filter_le (fun s => specFindEdge t₁.tipNames s.below s.tip t₂.splits)
+    (t₁.splits.filter fun s => tipEdges || !s.tip)
+  omega
+
 /-- the oracle's fast form of `sameSplit` (membership vectors) is `sameSplit` -/
 theorem sameSplit_vec (all a b : List String) :
     sameSplit all a b = sameSplitV (memVec all a) (memVec all b) := sameSplit_eq_vec all a b
@@ -224,6 +296,36 @@ theorem quartet_keys_lawful : KeyLaws Quartet.hashCode Quartet.hashEquals := by
   · intro a b h; exact (q_equals_iff_same_taxa b a).mpr ((q_equals_iff_same_taxa a b).mp h).symm
   · intro a b c h1 h2
     exact (q_equals_iff_same_taxa a c).mpr (((q_equals_iff_same_taxa a b).mp h1).trans ((q_equals_iff_same_taxa b c).mp h2))
+
+/-- `Tree.Quartets(false, ·)` (post-order "right" lists, pre-order "left" lists concatenated in
+    neighbour order with the parent at `ppos`, one quartet set per branch whose two ends have three
+    neighbours, `iterate`) delivers exactly the quartets of the tree — two tips away from the branch,
+    two tips below it — as a multiset, for every tree with unique tip names whose root is not a tip. -/
+theorem quartets_plain_correct (rank : String → Nat) (t : T) (hn : t.tipNames.Nodup) (hr : t.kids.length ≠ 1) :
+    ((quartets rank false t).map Quartet.canon).Perm ((specQuartets rank false t).map Quartet.canon) :=
+  quartets_plain_eq rank t hn hr
+
+/-- The same for both modes of `Quartets`: with `specific` the quartets take one tip behind each of two
+    other branches of the upper node and one tip below each of two child branches of the lower node
+    (`iterate`'s eight nested loops over the branch groups, the parent's group being the "left" list). -/
+theorem quartets_correct (rank : String → Nat) (specific : Bool) (t : T) (hn : t.tipNames.Nodup) (hr : t.kids.length ≠ 1) :
+    ((quartets rank specific t).map Quartet.canon).Perm ((specQuartets rank specific t).map Quartet.canon) :=
+  quartets_eq rank specific t hn hr
+
+/-- an unrooted example with quartets: ((A,B),C,D,E) -/
+def exU : T := .node ⟨"", []⟩ 0
+  [(⟨1, NIL, NIL, [], 0⟩, .node ⟨"", []⟩ 0 [(⟨1, NIL, NIL, [], 1⟩, .leaf "A"), (⟨2, NIL, NIL, [], 2⟩, .leaf "B")]),
+   (⟨1, NIL, NIL, [], 3⟩, .leaf "C"), (⟨1, NIL, NIL, [], 4⟩, .leaf "D"), (⟨1, NIL, NIL, [], 5⟩, .leaf "E")]
+
+example : exU.tipNames.Nodup ∧ exU.kids.length ≠ 1 ∧
+    (quartets (fun x => (sortNames exU.tipNames).idxOf x) false exU).length = 3 := by decide
+
+/-- a root that is a tip: `postOrderQuartetSet` stops at the root and nothing is enumerated, whereas
+    the same topology rooted on the inner node has its three quartets -/
+theorem quartets_roottip_empty :
+    quartets (fun x => (sortNames exTipRoot.tipNames).idxOf x) false exTipRoot = [] ∧
+    quartets (fun x => (sortNames exU.tipNames).idxOf x) false exU ≠ [] := by
+  decide
 
 /-- F9 (before fix cf649d5): two presentations of one quartet that `HashEquals` identifies
     got different hash codes. -/
@@ -287,6 +389,48 @@ theorem edge_keys_lawful (H : String → UInt64) (tips : List String) (hn : tips
   · intro a b h
     rw [spec_equals_iff_sameSplit H (S a b)] at h
     exact spec_hashCode_of_sameSplit H (S a b) h
+
+/-- `tree.EdgeIndex` as the driver runs it — keys are the index records of branches of trees on one set
+    of uniquely named taxa, hashed by `HashCode`, compared by `HashEquals` — answers every script of
+    `AddEdgeCount` / `PutEdgeValue` / `Value` / `Edges` exactly like a plain map keyed by the *split*
+    (`sameSplit`), for every capacity and rehash policy. -/
+theorem edgeIndex_on_trees (H : String → UInt64) (tips : List String) (hn : tips.Nodup)
+    (cap : Nat) (policy : Nat → Nat → Bool) (ops : List (EIOp { b : List String // b.Sublist tips })) :
+    EI.run EdgeIdx.hashCode EdgeIdx.equals policy
+        (ops.map (EIOp.mapKey fun b => specIdx H tips b.1)) (HM.new cap) =
+      Assoc.runEI (fun b b' => sameSplit tips b.1 b'.1) ops [] := by
+  rw [← new_map (fun (b : { b : List String // b.Sublist tips }) => specIdx H tips b.1), ei_run_map]
+  rw [ei_refines (edge_keys_lawful H tips hn)]
+  congr 1
+  funext b b'
+  exact spec_equals_iff_sameSplit H ⟨hn, hn, List.Perm.refl _, b.2, b'.2⟩
+
+/-- `hashmap.HashMap` keyed by index records of branches (as `Compare`, the consensus and the supports use
+    it, and as the driver runs it): every `PutValue` / `Value` / `KeyValues` / `Keys` script answers like a
+    plain map keyed by the split, for every capacity and rehash policy. -/
+theorem hashmap_on_trees {ν : Type} (H : String → UInt64) (tips : List String) (hn : tips.Nodup)
+    (cap : Nat) (policy : Nat → Nat → Bool) (ops : List (HMOp { b : List String // b.Sublist tips } ν)) :
+    HMOut.simL
+      (HM.run EdgeIdx.hashCode EdgeIdx.equals policy (ops.map (HMOp.mapKey fun b => specIdx H tips b.1)) (HM.new cap))
+      ((Assoc.run (fun b b' => sameSplit tips b.1 b'.1) ops []).map (HMOut.mapKey fun b => specIdx H tips b.1)) := by
+  rw [← new_map (fun (b : { b : List String // b.Sublist tips }) => specIdx H tips b.1), hm_run_map]
+  apply simL_map
+  have hE : (fun (b b' : { b : List String // b.Sublist tips }) => sameSplit tips b.1 b'.1) =
+      fun b b' => (specIdx H tips b.1).equals (specIdx H tips b'.1) := by
+    funext b b'
+    exact (spec_equals_iff_sameSplit H ⟨hn, hn, List.Perm.refl _, b.2, b'.2⟩).symm
+  rw [hE]
+  exact hm_refines (edge_keys_lawful H tips hn) cap policy ops
+
+/-- `IndexQuartets`: for every capacity (the code's 12 800 000 included) and rehash policy the map holds
+    one entry per set of four taxa — first quartet met as key, last one as value (`specIndexQuartets`),
+    up to the order of `KeyValues`. -/
+theorem indexQuartets_plain_map (policy : Nat → Nat → Bool) (cap : Nat) (qs : List Quartet) :
+    HMOut.simL (indexQuartets policy cap qs)
+      (List.replicate qs.length HMOut.unit ++ [.kvs (specIndexQuartets qs)]) := by
+  unfold indexQuartets specIndexQuartets
+  rw [← assoc_run_puts]
+  exact hm_refines quartet_keys_lawful cap policy _
 
 /-- F36 (before fix b2a7fc8): a map created with capacity 0 panics on the first `PutValue`. -/
 theorem hm_cap0_pinned_panics (hash : Nat → UInt64) (eqv : Nat → Nat → Bool) (policy : Nat → Nat → Bool) (k v : Nat) :
